@@ -47,8 +47,9 @@ TRUSTED = [
     "and feedback positions of the recursive and dirrec loops and the label bounds of _get_last_window "
     "are regenerated on every run as C05/Gen.v and proved equal to the model's in C05/Bridge.v "
     "(unfold; lia); the interpreter's semantics of the Python subset (environments, guard clauses, "
-    "conditional values, array writes with path condition and loop, interprocedural inlining, "
-    "`isinstance` of an integer time point) is trusted",
+    "conditional values, array writes with path condition and loop, interprocedural inlining from the "
+    "public predict / fit, `isinstance` of an integer time point, `fh.is_all_out_of_sample(cutoff)` "
+    "taken to hold on the predict path) is trusted",
     "the test-double regressors in props/c05.py (recording, positional weighted sums) and their "
     "Gallina twins in coq/C05/Cases.v: same arithmetic on both sides, exact in float64 "
     "(all values are integers < 2^53); the theorems quantify over ALL deterministic regressors, the "
@@ -649,6 +650,26 @@ def _run_hist(case):
             "cls_strategy": type(f).strategy}
 
 
+_SWT_NAME = []
+
+
+def _swt_function(_reduce):
+    """the sliding-window transform of the tree under test, found by its role in the call graph (the
+    one function of _reduce.py that every strategy's fit reaches), so that a rename is followed"""
+    if not _SWT_NAME:
+        name = "_sliding_window_transform"
+        try:
+            import os
+            from translator import reduce_c05
+            repo = os.path.dirname(os.path.dirname(os.path.dirname(os.path.dirname(
+                os.path.abspath(_reduce.__file__)))))
+            name = reduce_c05.transform_function_name(repo)
+        except Exception:
+            pass
+        _SWT_NAME.append(name)
+    return getattr(_reduce, _SWT_NAME[0])
+
+
 def run_impl(case):
     import numpy as np
     import pandas as pd
@@ -663,7 +684,10 @@ def run_impl(case):
         est = cls[case["estimator"]]()
         out = {}
         try:
-            out["scitype"] = _reduce._infer_scitype(est)
+            if hasattr(_reduce, "_infer_scitype"):
+                out["scitype"] = _reduce._infer_scitype(est)
+            else:   # the private helper is gone: what make_reduction infers
+                out["scitype"] = type(_reduce.make_reduction(est, strategy="recursive"))._estimator_scitype
         except ValueError:
             out["scitype"] = None
         try:
@@ -681,7 +705,7 @@ def run_impl(case):
         X = _frame(case["xs"], idx) if case["xs"] else None
         sc = "tabular-regressor" if case["scitype"] == "tab" else "time-series-regressor"
         try:
-            yt, Xt = _reduce._sliding_window_transform(
+            yt, Xt = _swt_function(_reduce)(
                 y, case["wl"], ForecastingHorizon(case["fh"]), X, scitype=sc)
         except Exception as e:
             if type(e).__name__ in ERRS:
